@@ -65,7 +65,7 @@ type Scenario struct {
 	Idle func(state any, s *vcore.Sched) bool
 	// BlockedOK says that the threads left blocked at the end are blocked legitimately
 	// (e.g. a deref of a future that never completes); the execution is then judged by Check.
-	BlockedOK func(state any, s *vcore.Sched) bool
+	BlockedOK   func(state any, s *vcore.Sched) bool
 	VisibleEnv  bool
 	VisibleAtom bool
 	VisibleHook bool
